@@ -117,6 +117,36 @@ pub fn run(cx: &mut Ctx) {
             cb(&|| name.clone(), v);
         }
     });
+
+    // add_edge_smart on every (colour of s, colour of t, existing wire none/plain/Hadamard, new wire plain/Hadamard) and on self-loops,
+    // with phases and extra legs, against the same diagram with the new wire routed through a phase-free identity spider (no parallel
+    // wire, no self-loop: the evaluator's meaning of "one more wire")
+    cx.check("add_edge_smart_every_case", |cb| {
+        let tys = [VType::Z, VType::X];
+        let ets = [EType::N, EType::H];
+        for &ts in &tys { for &tt in &tys { for existing in 0..3usize { for &new in &ets { for selfloop in [false, true] { for ph in 0..2 {
+            if selfloop && (existing != 0 || tt != ts) { continue; }
+            let v = (|| {
+                let mut g = Graph::new();
+                let s = g.add_vertex_with_phase(ts, Rational64::new(if ph == 0 { 1 } else { 0 }, 4));
+                let t = if selfloop { s } else { g.add_vertex_with_phase(tt, Rational64::new(1, 2)) };
+                // two open legs so that the map is not a mere number
+                let (b0, b1) = (g.add_vertex(VType::B), g.add_vertex(VType::B));
+                g.add_edge_with_type(b0, s, EType::N); g.add_edge_with_type(b1, t, if ph == 0 { EType::N } else { EType::H });
+                g.set_inputs(vec![b0]); g.set_outputs(vec![b1]);
+                if existing > 0 { g.add_edge_with_type(s, t, ets[existing - 1]); }
+                let mut want = g.clone();
+                let mid = want.add_vertex(if ts == VType::Z { VType::X } else { VType::Z });   // a 2-legged phase-free spider of either colour is a plain wire
+                want.add_edge_with_type(s, mid, new); want.add_edge_with_type(mid, t, EType::N);
+                let mut got = g.clone();
+                guard(|| got.add_edge_smart(s, t, new))?;
+                let (_, _, tw) = tensor(&want)?; let (_, _, tg) = tensor(&got)?;
+                for ((ix, a), (_, b)) in tw.iter().zip(tg.iter()) { if !close(*a, *b) { return Err(format!("entry {:?}: add_edge_smart gives {}, one more wire means {}", ix, b, a)); } }
+                Ok(())
+            })();
+            cb(&|| format!("s {:?} t {:?} existing {} new {:?} self-loop {} variant {}", ts, if selfloop { ts } else { tt }, ["none", "plain", "hadamard"][existing], new, selfloop, ph), v);
+        } } } } } }
+    });
     cx.check("plug_composes_append_tensors", |cb| {
         for (n1, g) in &gs { for (n2, h) in &gs {
             let v = (|| {
